@@ -114,7 +114,7 @@ func (c *cluster) monitor() []finding {
 	lastGateCommit := map[string]uint64{}
 	followerLeader := map[uint64][2]uint64{} // node -> (leader id, term) advertised
 	var restores []hev
-	deliveredBy := map[[5]uint64]uint64{}    // (receiver, idx, term, type, payload) -> sending leader
+	deliveredBy := map[[5]uint64]uint64{} // (receiver, idx, term, type, payload) -> sending leader
 	// diagnosis of finding F3-ii: the entry was served by a leader from at or below its own snapshot index
 	servedBelowSnapshot := func(receiver uint64, ent [4]uint64) bool {
 		l, ok := deliveredBy[[5]uint64{receiver, ent[0], ent[1], ent[2], ent[3]}]
@@ -433,8 +433,8 @@ func (c *cluster) monitor() []finding {
 		type sendInfo struct {
 			seq, to, term uint64
 		}
-		sends := map[uint64]sendInfo{} // send seq -> info (AppendEntries / heartbeats only)
-		okResp := map[uint64]uint64{}  // send seq -> seq of the Success answer in the sender's term
+		sends := map[uint64]sendInfo{}   // send seq -> info (AppendEntries / heartbeats only)
+		okResp := map[uint64]uint64{}    // send seq -> seq of the Success answer in the sender's term
 		delivered := map[uint64]uint64{} // send seq -> seq at which the caller was handed the answer
 		sender := map[uint64]uint64{}
 		for _, e := range evs {
